@@ -156,6 +156,12 @@ def run_families(families: list[Family], workers: int | None) -> tuple[Any, dict
                 continue
             total.merge(res)
             all_exhausted = all_exhausted and res.exhausted
+            if os.environ.get("VCHECK_STOP_AT_FIRST_VIOLATION") and res.violation_counts:
+                # development aid for regression runs over seeded changes: a family has reported a
+                # violation, the remaining families are not needed to tell "caught" from "missed"
+                # (never set by the registered commands)
+                pool.terminate()
+                break
             per_family[fam.name] = {
                 "paths": res.paths,
                 "completed": res.completed,
